@@ -2,4 +2,4 @@ From Coq Require Import ExtrOcamlBasic.
 From Coq Require Import ZArith.
 From MT Require Import Tls.TlsTreeModel Tls.TlsKeysModel Tls.TlsKeysLockModel Tls.TlsSysModel.
 Extraction Language OCaml.
-Separate Extraction Z.div_eucl Z.add Z.mul Z.opp consts cfg_plain cfg_tagged empty set get nodes kinit seq_op step init label_val chain_list lstep linit llabel_val sys_step sys_init.
+Separate Extraction Z.div_eucl Z.add Z.mul Z.opp consts cfg_plain cfg_tagged empty set get nodes kinit seq_op cycle_n step init label_val chain_list lstep linit llabel_val sys_step sys_init.
